@@ -2,6 +2,7 @@ import Hgxv.Proofs.C04Rej
 import Hgxv.Proofs.C04AggSpec
 import Hgxv.Proofs.C04Promote
 import Hgxv.Proofs.C04Dump
+import Hgxv.Proofs.C04Ext
 /-! # C04 - MultiplexHypergraph keeps (hyperedge, layer) records; aggregation sums layers
 
 Objects (see `Model/C04.lean`, `Model/C04Spec.lean`): `Store` = the tables of the Python object, `step`/`run` =
@@ -365,3 +366,141 @@ example : records (populate (C04_renamed (run (init true) C04_ops))) = records (
     (aggregated (populate (C04_renamed (run (init true) C04_ops)))).map (fun a => a.edges.map (fun e => (e.1, e.2.1))) =
       some [([2, 3], 19), ([2], 4)] := by
   decide
+
+
+/-! ## Extension round: the constructor, the hashing view, the raw table getters -/
+
+/-- **The constructor is a history** (`MultiplexHypergraph(edge_list, edge_layer, weighted, weights, hypergraph_metadata,
+node_metadata, edge_metadata)`, both forms of the layer argument).  For all arguments whose hyperedges are node sets:
+the constructor of the tables is accepted iff the constructor of the map is, and then gives the same abstract state;
+an accepted constructor IS the run of the public calls `ctorOps a` (one `add_node` per entry of `node_metadata`, then one
+`add_edges`) on the empty object, those calls are well-formed, and every history `ops` continued on the constructed
+object keeps the invariant and refines the map built by the map's constructor - so `C04_queries`, `C04_refines_aggregate`,
+`C04_registry` ... hold for objects that were not built call by call (history `pre ++ ops`). -/
+theorem C04_constructor (a : CtorArgs) (ha : a.WF) (ops : List Op) (hw : ∀ op ∈ ops, op.WF) :
+    (construct a).map abs = Spec.construct a ∧
+    ∀ s, construct a = some s →
+      ∃ pre sp, ctorOps a = some pre ∧ (∀ op ∈ pre ++ ops, op.WF) ∧ Spec.construct a = some sp ∧
+        s = run (init a.weighted a.hm) pre ∧ sp = Spec.run (Spec.init a.weighted a.hm) pre ∧
+        run s ops = run (init a.weighted a.hm) (pre ++ ops) ∧
+        Inv (run s ops) ∧ abs (run s ops) = Spec.run sp ops := by
+  refine ⟨construct_abs a ha, fun s hs => ?_⟩
+  obtain ⟨pre, hp, hrun⟩ := construct_some a s hs
+  have hpre := ctorOps_wf a ha pre hp
+  have hall : ∀ op ∈ pre ++ ops, op.WF := by
+    intro op hop
+    rcases List.mem_append.mp hop with h | h
+    · exact hpre op h
+    · exact hw op h
+  have hsp : Spec.construct a = some (abs s) := by rw [← construct_abs a ha, hs]; rfl
+  obtain ⟨pre', hp', hrun'⟩ := Spec.construct_some a (abs s) hsp
+  have : pre' = pre := by rw [hp] at hp'; exact (Option.some.inj hp').symm
+  subst this
+  have hinv : Inv s := by rw [hrun]; exact C04_inv _ _ _ hpre
+  refine ⟨pre', abs s, hp, hall, hsp, hrun, hrun', ?_, run_inv _ _ hinv hw, abs_run _ _ hinv hw⟩
+  rw [hrun, run_append]
+
+/-- **When the constructor raises**: exactly when the layer argument has neither accepted form (`edge_layer` missing and
+some element of `edge_list` is not an `(edge, layer)` pair; or the two lists differ in length), or the one `add_edges`
+call it makes after the `node_metadata` loop is rejected (by `C04_refines_out`: iff the map rejects that call). -/
+theorem C04_constructor_rejects (a : CtorArgs) :
+    construct a = none ↔
+      ctorBatch a.edges = none ∨
+      ∃ raws ls, ctorBatch a.edges = some (some (raws, ls)) ∧
+        (step (run (init a.weighted a.hm) (nodeOps a.nodeMeta)) (.addEdges raws ls a.weights a.edgeMeta)).2 = Out.rej := by
+  unfold construct
+  cases hb : ctorBatch a.edges with
+  | none => simp
+  | some b =>
+    cases b with
+    | none => simp
+    | some p =>
+      obtain ⟨raws, ls⟩ := p
+      simp only [reduceCtorEq, false_or, Option.some.injEq, Prod.mk.injEq, exists_eq_left', ← ctorNodes_run]
+      show _ ↔ ∃ raws' ls', (raws = raws' ∧ ls = ls') ∧
+        (addEdges (ctorNodes (init a.weighted a.hm) a.nodeMeta) raws' ls' a.weights a.edgeMeta).2 = Out.rej
+      generalize addEdges (ctorNodes (init a.weighted a.hm) a.nodeMeta) = f
+      constructor
+      · intro h
+        refine ⟨raws, ls, ⟨rfl, rfl⟩, ?_⟩
+        generalize f raws ls a.weights a.edgeMeta = r at h ⊢
+        obtain ⟨s1, o⟩ := r
+        cases o with
+        | ok => simp at h
+        | rej => rfl
+      · rintro ⟨raws', ls', ⟨rfl, rfl⟩, h⟩
+        generalize f raws ls a.weights a.edgeMeta = r at h ⊢
+        obtain ⟨s1, o⟩ := r
+        cases o with
+        | ok => simp at h
+        | rej => rfl
+
+/-- **The hashing view** (`expose_attributes_for_hashing()`, digested by `readwrite.hashing.hash_hypergraph`).  After every
+history the call succeeds (no `KeyError` on the re-canonicalised keys) and returns the weighted flag, the hypergraph
+metadata, the entries of the map sorted by Python's order on `(node tuple, layer)` with their weights and metadata, and
+the nodes in sorted order with their metadata. -/
+theorem C04_hash_view (w : Bool) (hm : HMeta) (ops : List Op) (hw : ∀ op ∈ ops, op.WF) :
+    hashView (run (init w hm) ops) = some (Spec.hashView (Spec.run (Spec.init w hm) ops)) := by
+  rw [← C04_refines w hm ops hw]
+  exact hashView_abs _ (C04_inv w hm ops hw)
+
+/-- **The hashing view is canonical.** Two objects reached by any two histories (any flags, any initial metadata) have the
+same hashing view IF AND ONLY IF their maps agree as sets: same weighted flag, same hypergraph metadata, the same
+`(node set, layer) ↦ (weight, metadata)` entries and the same nodes with metadata, in whatever order they were inserted
+and whatever record ids they got.  (So `hash_hypergraph` separates two multiplex hypergraphs exactly by their content.) -/
+theorem C04_hash_canonical (w w' : Bool) (hm hm' : HMeta) (ops ops' : List Op) (hw : ∀ op ∈ ops, op.WF)
+    (hw' : ∀ op ∈ ops', op.WF) :
+    hashView (run (init w hm) ops) = hashView (run (init w' hm') ops') ↔
+      (Spec.run (Spec.init w hm) ops).weighted = (Spec.run (Spec.init w' hm') ops').weighted ∧
+      (Spec.run (Spec.init w hm) ops).hmeta = (Spec.run (Spec.init w' hm') ops').hmeta ∧
+      (Spec.run (Spec.init w hm) ops).edges.Perm (Spec.run (Spec.init w' hm') ops').edges ∧
+      (Spec.run (Spec.init w hm) ops).nodes.Perm (Spec.run (Spec.init w' hm') ops').nodes := by
+  rw [C04_hash_view w hm ops hw, C04_hash_view w' hm' ops' hw', Option.some.injEq]
+  obtain ⟨h1, h2, _⟩ := C04_spec_is_map w hm ops hw
+  exact Spec.hashView_eq_iff _ _ h1 h2
+
+/-- **The raw tables** `get_edge_list()` / `get_adj_dict()` after every history: the keys of the edge table are the records,
+its ids increase in insertion order and lie below `_next_edge_id` (no id is ever re-used); a node's adjacency list is exactly
+the ids of the records containing it, in that order; the adjacency dict has exactly the nodes as keys. -/
+theorem C04_raw_tables (w : Bool) (hm : HMeta) (ops : List Op) (hw : ∀ op ∈ ops, op.WF) :
+    let s := run (init w hm) ops
+    keys (edgeTable s) = records s ∧ ((edgeTable s).map (·.2)).Pairwise (· < ·) ∧
+    (∀ p ∈ edgeTable s, p.2 < s.nextId) ∧
+    (∀ n ids, get? (adjTable s) n = some ids → ids = ((edgeTable s).filter (fun p => decide (n ∈ p.1.1))).map (·.2)) ∧
+    (∀ n, (get? (adjTable s) n).isSome ↔ n ∈ nodes s) :=
+  raw_tables _ (C04_inv w hm ops hw)
+
+/-! non-vacuity: a constructor call with node metadata, the embedded form, the same node set in two layers of a weighted
+batch on an UNWEIGHTED object (promotion inside the constructor), continued by a history; rejected forms; two histories
+that insert the same content in different orders (different record ids) and hash alike; one that differs in a weight -/
+def C04_ctor : CtorArgs :=
+  { weighted := false, hm := [(100, 5)], nodeMeta := [(7, [(101, 6)]), (2, [])],
+    edges := .embedded [.pair [3, 1, 2] 0, .pair [2, 1] 1, .pair [1, 2] 0], weights := some [10, 4, 8], edgeMeta := none }
+
+example : C04_ctor.WF := by decide
+example : ctorOps C04_ctor = some [.addNode 7 (some [(101, 6)]), .addNode 2 (some []),
+    .addEdges [[3, 1, 2], [2, 1], [1, 2]] [0, 1, 0] (some [10, 4, 8]) none] := by decide
+example : (construct C04_ctor).map (fun s => s.weighted) = some true ∧
+    (construct C04_ctor).map nodes = some [7, 2, 1, 3] ∧
+    (construct C04_ctor).map records = some [([1, 2, 3], 0), ([1, 2], 1), ([1, 2], 0)] ∧
+    (construct C04_ctor).map (fun s => getWeight s [2, 1] 1) = some (some 4) ∧
+    (construct C04_ctor).map edgeTable = some [(([1, 2, 3], 0), 0), (([1, 2], 1), 1), (([1, 2], 0), 2)] := by decide
+example : (construct C04_ctor).map (fun s => records (run s [.removeNode 3 true])) = some [([1, 2], 1), ([1, 2], 0)] ∧
+    (construct C04_ctor).map (fun s => getWeight (run s [.removeNode 3 true]) [1, 2] 0) = some (some 18) := by decide
+example : construct { C04_ctor with edges := .embedded [.pair [1, 2] 0, .other] } = none ∧
+    construct { C04_ctor with edges := .separate [[1, 2], [2, 3]] [0, 1, 2], weights := none } = none ∧
+    construct { C04_ctor with edges := .separate [[1, 2], [1, 2]] [0, 0], weights := some [4, 4] } = none ∧
+    (construct { C04_ctor with edges := .absent }).map records = some [] := by decide
+
+def C04_h1 : List Op := [.addEdge [1, 2] 0 (some 6) none, .addEdge [5, 1] 1 none (some [(100, 5)]), .addNode 9 none]
+def C04_h2 : List Op := [.addNode 9 none, .addEdge [3] 0 none none, .addEdge [1, 5] 1 none (some [(100, 5)]),
+  .addEdge [2, 1] 0 (some 2) none, .removeEdge [3] 0, .removeNode 3 false, .addEdge [1, 2] 0 (some 4) none]
+example : (run (init true) C04_h1).edgeList ≠ (run (init true) C04_h2).edgeList ∧
+    nodes (run (init true) C04_h1) ≠ nodes (run (init true) C04_h2) ∧
+    hashView (run (init true) C04_h1) = hashView (run (init true) C04_h2) := by decide
+example : (hashView (run (init true) C04_h2)).map (fun v => v.edges.map (·.1)) = some [([1, 2], 0), ([1, 5], 1)] ∧
+    (hashView (run (init true) C04_h2)).map (fun v => v.edges.map (·.2.1)) = some [6, 4] ∧
+    (hashView (run (init true) C04_h2)).map (fun v => v.edges.map (·.2.2)) = some [[], [(100, 5)]] ∧
+    (hashView (run (init true) C04_h2)).map (fun v => v.nodes) = some [(1, []), (2, []), (5, []), (9, [])] := by decide
+example : hashView (run (init true) C04_h1) ≠ hashView (run (init true) (C04_h1 ++ [.setWeight [1, 2] 0 7])) := by decide
+example : (adjTable (run (init true) C04_h2)) = [(9, []), (1, [1, 2]), (5, [1]), (2, [2])] := by decide
